@@ -10,4 +10,8 @@ z3 --version
 python3-vt -c "import z3; print('z3py', z3.get_version_string())"
 echo "[setup] building the Kani harness crate against /repo (codegen only)"
 (cd kani && cargo kani -Z unstable-options --ignore-global-asm --target-dir ../build/kani-target --only-codegen > ../build/setup-kani.log 2>&1) || { tail -30 build/setup-kani.log; exit 1; }
+echo "[setup] building the replay crate against /repo (dev + release)"
+(cd replay && CARGO_TARGET_DIR=../build/replay-target cargo build --offline -q && CARGO_TARGET_DIR=../build/replay-target cargo build --offline -q --release) > build/setup-replay.log 2>&1 || { tail -30 build/setup-replay.log; exit 1; }
+echo "[setup] generating the MIR dump of /repo (nightly)"
+python3-vt -c "import sys; sys.path.insert(0, '.'); from mirsym import mir; m = mir.load('build'); print('functions in the dump:', len(m.fns))"
 echo "[setup] done"
